@@ -135,9 +135,14 @@ Definition to_csv (cur : option table) (t : table) (overwrite : bool) : res (opt
        | None => Ok (Some t)
        end.
 
+(* the check in front of the export (as repaired): without overwrite, neither output file may exist *)
+Definition csv_occupied (s : fstate) : bool :=
+  match fs_nodes s, fs_edges s with None, None => false | _, _ => true end.
+
 Definition geff_to_csv (s : fstate) (g : graph) (overwrite : bool) : fstate * res unit :=
   let nt := fst (node_frame g) in
   let et := fst (edge_frame g) in
+  if negb overwrite && csv_occupied s then (s, Err FileExistsError) else
   match to_csv (fs_nodes s) nt overwrite with
   | Err e => (s, Err e)
   | Ok n' =>
